@@ -30,6 +30,8 @@ import (
 	"io"
 	"net/url"
 	"os"
+	"runtime/debug"
+	"syscall"
 	"sort"
 	"strings"
 	"sync"
@@ -99,7 +101,11 @@ type config struct {
 	ct   string
 }
 
-func (c config) isGRPC() bool { return c.ct == "application/grpc" }
+// isGRPC follows the content-type grammar of the gRPC-over-HTTP/2 specification the package cites:
+// "application/grpc" [("+proto" / "+json" / {custom})]. "application/grpc-web..." is a different protocol.
+func (c config) isGRPC() bool {
+	return c.ct == "application/grpc" || strings.HasPrefix(c.ct, "application/grpc+") || strings.HasPrefix(c.ct, "application/grpc;")
+}
 
 func (c config) toCase(cuts []int, L int) Case {
 	cs := Case{Encoding: encNames[c.enc], EndStream: plNames[c.pl], Direction: dirNames[c.dir], ContentType: c.ct, Cuts: append([]int{}, cuts...), StreamLen: L, Sizes: []int{}, Compressed: []bool{}}
@@ -138,7 +144,7 @@ func caseToConfig(cs Case) (config, error) {
 func plainMsg(i, size int) []byte {
 	b := make([]byte, size)
 	for j := range b {
-		b[j] = byte(0x41 + i*29 + j*7 + (j>>8)*13)
+		b[j] = byte(0x41 + i*29 + (j%251)*7 + (j>>12)*13)
 	}
 	return b
 }
@@ -530,6 +536,10 @@ func (it *item) eval(cuts []int) []symptom {
 		}
 		return syms
 	}
+	if cfg.ct != "application/grpc" && len(proc.calls) == 0 && diffPassThrough(src, sink.ev) == "" {
+		return append(syms, symptom{"detect:content_type_with_subtype:stream_not_processed",
+			fmt.Sprintf("content-type %q is a gRPC content-type (application/grpc[+subtype]) but the stream was relayed as non-gRPC: the processor saw no header and none of the %d messages", cfg.ct, len(b.plain))})
+	}
 	if len(otherProc.calls) != wantOther {
 		syms = append(syms, symptom{"cross_direction:processor_calls", fmt.Sprintf("the opposite direction's processor saw %d calls, want %d", len(otherProc.calls), wantOther)})
 	}
@@ -873,8 +883,12 @@ func (it *item) one(cuts []int) {
 			it.viol[s.sig] = v
 		}
 		v.count++
-		if v.key == nil || less(key, v.key) {
-			v.key, v.desc, v.cs = key, s.desc, it.cfg.toCase(cuts, L)
+		k := key
+		if strings.HasPrefix(s.sig, "detect:") && len(it.cfg.msgs) == 0 {
+			k = append([]int{99}, key[1:]...) // a case with a message illustrates a detection failure better
+		}
+		if v.key == nil || less(k, v.key) {
+			v.key, v.desc, v.cs = k, s.desc, it.cfg.toCase(cuts, L)
 		}
 	}
 }
@@ -889,7 +903,7 @@ func less(a, b []int) bool {
 }
 
 // run enumerates the item's cut sets.
-func (it *item) run(maxExhaustive int, deadline time.Time, timedOut *int32) {
+func (it *item) run(maxExhaustive, maxMsgs int, deadline time.Time, timedOut *int32) {
 	L := len(it.b.stream)
 	switch {
 	case L <= 1:
@@ -900,7 +914,7 @@ func (it *item) run(maxExhaustive int, deadline time.Time, timedOut *int32) {
 		pos := it.b.positions()
 		buf := make([]int, 0, 3)
 		n := 0
-		lib.Cuts(len(pos)+1, 3, func(idx []int) {
+		lib.Cuts(len(pos)+1, maxCutsLong(len(it.cfg.msgs), maxMsgs), func(idx []int) {
 			n++
 			if n&255 == 0 && (atomic.LoadInt32(timedOut) != 0 || time.Now().After(deadline)) {
 				atomic.StoreInt32(timedOut, 1)
@@ -923,6 +937,16 @@ func (it *item) run(maxExhaustive int, deadline time.Time, timedOut *int32) {
 	}
 }
 
+// maxCutsLong is the cut budget of a stream too long for all 2^(L-1) cut sets: 3 cuts, but 2 for the longest
+// sequences of the tier (their position sets are the largest and every compressed message costs the adapter
+// a fresh ~1 MB compressor).
+func maxCutsLong(nmsgs, maxMsgs int) int {
+	if nmsgs >= maxMsgs {
+		return 2
+	}
+	return 3
+}
+
 func configs(maxMsgs int) []config {
 	var out []config
 	k := len(sizes) * 2
@@ -938,7 +962,11 @@ func configs(maxMsgs int) []config {
 		for enc := range encNames {
 			for _, pl := range pls {
 				for dir := range dirNames {
-					for _, ct := range []string{"application/grpc", "application/json"} {
+					cts := []string{"application/grpc", "application/json"}
+					if len(msgs) <= 1 { // content-type detection variants, on the short sequences only
+						cts = append(cts, "application/grpc+proto", "application/grpc-web")
+					}
+					for _, ct := range cts {
 						out = append(out, config{msgs: msgs, enc: enc, pl: pl, dir: dir, ct: ct})
 					}
 				}
@@ -955,6 +983,15 @@ func main() {
 	if tier == "thorough" {
 		maxMsgs, maxEx = 3, 14
 		deadline = time.Now().Add(40 * time.Minute)
+	}
+	// the adapter allocates a fresh ~1 MB compressor per compressed message: without this the collector runs every few cases
+	if os.Getenv("GOGC") == "" {
+		debug.SetGCPercent(-1)
+		debug.SetMemoryLimit(2 << 30)
+	}
+	if os.Getenv("C11_BENCH") != "" {
+		bench(maxEx)
+		return
 	}
 	if p := os.Getenv("VERIF_REPLAY"); p != "" {
 		replay(p, maxEx)
@@ -989,7 +1026,7 @@ func main() {
 			return
 		}
 		it := newItem(cfgs[order[k]])
-		it.run(maxEx, deadline, &timedOut)
+		it.run(maxEx, maxMsgs, deadline, &timedOut)
 		mu.Lock()
 		defer mu.Unlock()
 		rep.Count("evaluations", it.evals)
@@ -1048,9 +1085,9 @@ func main() {
 	rep.Coverage["rule"] = "cases = every (message sequence, per-message compressed flag, grpc-encoding, END_STREAM placement, direction, content-type, cut set); " +
 		"states = distinct stream configurations executed, transitions = Header/Data calls made on the real adapter; a case is non-trivial when the stream is gRPC, " +
 		"has at least one message and at least one DATA frame boundary falls strictly inside a message frame (inside its 5-byte prefix or inside its payload), i.e. reassembly across frames is required"
-	rep.Coverage["bounds"] = fmt.Sprintf("message sequences of length 0..%d over sizes %v x compressed flag per message; encodings %v; END_STREAM on %v (zero-message streams: %v); both directions; content-type application/grpc and application/json; "+
-		"all 2^(L-1) cut sets for streams of L<=%d bytes, for longer streams all cut sets with <=3 cuts over {prefix start, prefix end, message end}+-2 and all multiples of 16384, plus the cut set of all multiples of 16384",
-		maxMsgs, sizes, encNames, plNames[:3], []string{plNames[plSeparate], plNames[plHeadersOnly], plNames[plTrailers]}, maxEx)
+	rep.Coverage["bounds"] = fmt.Sprintf("message sequences of length 0..%d over sizes %v x compressed flag per message; encodings %v; END_STREAM on %v (zero-message streams: %v); both directions; content-type application/grpc and application/json (sequences of <=1 message also application/grpc+proto, a gRPC content-type, and application/grpc-web, not one); "+
+		"all 2^(L-1) cut sets for streams of L<=%d bytes, for longer streams all cut sets with <=3 cuts (<=2 cuts for sequences of %d messages) over the position set {prefix start, prefix end, message end}+-2 and all multiples of 16384, plus the cut set of all multiples of 16384",
+		maxMsgs, sizes, encNames, plNames[:3], []string{plNames[plSeparate], plNames[plHeadersOnly], plNames[plTrailers]}, maxEx, maxMsgs)
 	rep.Assumptions = []string{
 		"the adapter is driven directly through the h2.Processor interface exactly as relay.processFrame does (one Header/Data call per frame, one goroutine per direction); HTTP/2 framing, flow control and hpack are out of scope (other properties)",
 		"deflate means raw DEFLATE (compress/flate), the repository's own convention; snappy sources use the framing (stream) format, the only one the adapter can decode",
@@ -1099,4 +1136,32 @@ func replay(path string, maxEx int) {
 	}
 	fmt.Println("recorded violation not reproduced")
 	os.Exit(0)
+}
+
+// bench (C11_BENCH=1) prints the CPU cost per case of a few representative configurations (development aid).
+func bench(maxEx int) {
+	cpu := func() time.Duration {
+		var ru syscall.Rusage
+		syscall.Getrusage(syscall.RUSAGE_SELF, &ru)
+		return time.Duration(ru.Utime.Nano() + ru.Stime.Nano())
+	}
+	for _, c := range []config{
+		{msgs: []msgSpec{{1, false}, {5, false}}, enc: encGzip, pl: plLast, ct: "application/grpc"},
+		{msgs: []msgSpec{{1, true}, {5, false}}, enc: encIdentity, pl: plLast, ct: "application/grpc"},
+		{msgs: []msgSpec{{1, true}, {5, false}}, enc: encGzip, pl: plLast, ct: "application/grpc"},
+		{msgs: []msgSpec{{1, true}, {5, true}}, enc: encDeflate, pl: plLast, ct: "application/grpc"},
+		{msgs: []msgSpec{{1, true}, {5, true}}, enc: encSnappy, pl: plLast, ct: "application/grpc"},
+		{msgs: []msgSpec{{300, true}, {300, true}}, enc: encGzip, pl: plLast, ct: "application/grpc"},
+		{msgs: []msgSpec{{70000, false}, {70000, false}}, enc: encGzip, pl: plLast, ct: "application/grpc"},
+		{msgs: []msgSpec{{70000, true}, {70000, true}}, enc: encGzip, pl: plLast, ct: "application/grpc"},
+		{msgs: []msgSpec{{70000, true}, {70000, true}}, enc: encSnappy, pl: plLast, ct: "application/grpc"},
+		{msgs: []msgSpec{{70000, true}, {70000, true}}, enc: encGzip, pl: plLast, ct: "application/json"},
+	} {
+		it := newItem(c)
+		var to int32
+		t0, c0 := time.Now(), cpu()
+		it.run(maxEx, 3, time.Now().Add(time.Hour), &to)
+		fmt.Printf("%v enc=%s ct=%s: %d cases, %.1f us wall, %.1f us cpu per case\n", c.msgs, encNames[c.enc], c.ct, it.evals,
+			float64(time.Since(t0).Microseconds())/float64(it.evals), float64((cpu()-c0).Microseconds())/float64(it.evals))
+	}
 }
